@@ -71,6 +71,9 @@ Step(t, e) ==
              ok == ~e.panic /\ e.res = LB!Window(cur, e.off, e.lim)
          IN [t EXCEPT !.bad = (IF legal THEN {} ELSE {"C18_Recent"}) \cup (IF ok THEN {} ELSE {"C18_RangeWindow"}),
                       !.last = e]
+    \* windows handed out earlier were re-read after further writes and trims: they are values and must not change
+    [] e.op = "winstable" ->
+         [t EXCEPT !.bad = IF e.changed = 0 THEN {} ELSE {"C18_RangeWindow"}, !.last = e]
     [] e.op = "stuck" ->
          [t EXCEPT !.bad = {"C18_StalledFollowerDoesNotBlock"}, !.last = e]
     [] OTHER -> [t EXCEPT !.bad = {}, !.last = e]
